@@ -494,6 +494,35 @@ pub fn c18(tier: Tier) -> i32 {
         })
         .reduce(Acc::new, Acc::merge);
     eprintln!("  [C18] {} row multisets, {} conversions", acc.states, acc.validated);
+    // calendar positions: a Buy, a Sell and a dividend row dated on every day of 2018-2026 (each export is one day)
+    {
+        let (from, to) = match tier {
+            Tier::Quick => (alpha::date(2018, 1, 1), alpha::date(2026, 12, 31)),
+            Tier::Thorough => (alpha::date(2000, 1, 1), alpha::date(2035, 12, 31)),
+        };
+        let mut days = vec![];
+        let mut d = from;
+        while d <= to {
+            days.push(d);
+            d += CDuration::days(1);
+        }
+        let part = days
+            .par_iter()
+            .fold(Acc::new, |mut acc, d| {
+                let rows = vec![
+                    row(Kind::Buy, "Buy", &us(*d), *d, "X", "BUY X", "10", "$100.50", "$1.00", ""),
+                    row(Kind::Sell, "Sell", &us(*d), *d, "X", "SELL X", "4", "$110", "$0.10", ""),
+                    row(Kind::Dividend, "Cash Dividend", &us(*d), *d, "X", "DIV", "", "", "", "$5.00"),
+                ];
+                let refs: Vec<&Row> = rows.iter().collect();
+                acc.states += 1;
+                acc.bump("calendar-exports");
+                let _ = check_export(ctxr, &mut acc, &refs, "calendar");
+                acc
+            })
+            .reduce(Acc::new, Acc::merge);
+        acc = Acc::merge(acc, part);
+    }
     crate::cli::c18_cli(&mut ctx, &mut acc);
     for key in ["shape:cancel-sell", "shape:rsu", "shape:line-break-in-description", "shape:withholding-without-same-day-dividend", "chunk-cuts"] {
         ctx.require(acc.get(key) > 0, &format!("no export exhibited {key}"));
